@@ -4,6 +4,7 @@
 #pragma once
 #include "rng.h"
 
+#include <map>
 #include <string>
 #include <vector>
 
@@ -165,7 +166,9 @@ struct XmlKnobs
 XmlKnobs draw_knobs(Rng& rng);
 std::string knobs_str(const XmlKnobs&);
 
-std::string render_xml(const Model&, const XmlKnobs&, Rng& rng);
+/** label_paths (optional): receives the XPath of every label element that carries text, keyed "<kind>:<template>:<index>"
+ *  (kind as in the XML, index of the location / edge) - the renderer knows about the empty sibling elements it emits */
+std::string render_xml(const Model&, const XmlKnobs&, Rng& rng, std::map<std::string, std::string>* label_paths = nullptr);
 std::string render_xta(const Model&);
 /** what summarize_document() must print for a faithful document */
 std::string expected_summary(const Model&, bool after_typecheck);
@@ -210,6 +213,7 @@ enum TokenFault {
     TF_SIDE_EFFECT,    // append an assignment / increment (guard, invariant, sync, probability)
     TF_CHAN_ARITH,     // a channel used arithmetically
     TF_BAD_TERNARY,    // a conditional whose branches are a channel and an integer (the error is rooted at the ?: node)
+    TF_OVERFLOW_LITERAL,  // a number replaced by an integer literal beyond INT_MAX
     TF_COUNT
 };
 const char* token_fault_name(int);
